@@ -8,6 +8,7 @@ CONSTANTS
   Kinds = {"val", "del"}
   L0L0KeepsTombstones = FALSE
   MaxId = 6
+  Wide = 0
   L0Hold = 0
   MtMax = 9
 ACTION_CONSTRAINT PrintCase
